@@ -26,6 +26,7 @@ import (
 	"context"
 	"errors"
 	"fmt"
+	"io"
 	"math"
 	"math/rand"
 	"os"
@@ -111,7 +112,15 @@ func (s *c17Sys) fetch(p []byte, off int64) (int, error) {
 		for i := range p {
 			p[i] = 0xEE
 		}
-		// like a connection that breaks half-way: part of the buffer was written, n > 0, and an error
+		// like a connection that breaks half-way: part of the buffer was written, n > 0, and an error;
+		// the error value rotates over what real fetchers return (a plain error, io.ErrUnexpectedEOF
+		// for a body cut short, io.EOF with n == 0 for an empty body)
+		switch idx % 3 {
+		case 1:
+			return len(p) / 2, io.ErrUnexpectedEOF
+		case 2:
+			return 0, io.EOF
+		}
 		return len(p) / 2, c17ErrInjected
 	}
 	copy(p, s.f[off:])
